@@ -261,6 +261,20 @@ func BinBV(op string, a, b *Term) *Term {
 		if a == b {
 			return BV(w, 0)
 		}
+		// (x + c1) - (x + c2) = c1 - c2 ; (x + c) - x = c ; x - (x + c) = -c   (identities of modular arithmetic)
+		{
+			ab, ac := a, uint64(0)
+			if a.op == "bvadd" && a.args[1].isConst() {
+				ab, ac = a.args[0], a.args[1].val
+			}
+			bb, bc := b, uint64(0)
+			if b.op == "bvadd" && b.args[1].isConst() {
+				bb, bc = b.args[0], b.args[1].val
+			}
+			if ab == bb && (ab != a || bb != b) {
+				return BV(w, ac-bc)
+			}
+		}
 		if b.isConst() {
 			return BinBV("bvadd", a, BV(w, -b.val))
 		}
